@@ -11,7 +11,7 @@
     original message itself or not; returns nil / an error / panics).  Each delivery is handled
     by its own closure invocation that shares nothing but the configuration with the others,
     so the statements are per delivery. *)
-From WM Require Import Base.Prelude Message.Model Handler.RouterHandle Handler.RouterProofs CQRS.Model CQRS.Proofs CQRS.Reg CQRS.RegProofs CQRS.Calls CQRS.CallsProofs.
+From WM Require Import Base.Prelude Message.Model Handler.RouterHandle Handler.RouterProofs CQRS.Model CQRS.Proofs CQRS.Reg CQRS.RegProofs CQRS.Calls CQRS.CallsProofs CQRS.Own CQRS.OwnProofs.
 
 Section C15.
   Context {V T P : Type}.
@@ -377,6 +377,43 @@ Section C15_Calls.
   Proof. exact (bus_mcalls_accepts enc). Qed.
 End C15_Calls.
 
+(** ** ownership of published payloads (round "seeds 3"; model: CQRS/Own.v): payload bytes live in
+    buffers that messages reference; a sequence of bus calls on one bus / marshaler *)
+Section C15_Own.
+  Context {V P : Type}.
+  Variable enc : V -> option P.
+
+  (** whatever calls follow, reading every published message's payload AFTER the whole sequence
+      gives exactly what its own call prescribed: the value's encoding, or what the last callback
+      of that call put there — no later Send / Publish affects an earlier message *)
+  Theorem C15_published_payload_owned : forall (cs : list (@hcall V P)) (s : store),
+    let '(sf, bs) := hrun enc s cs in map (read sf) bs = map (hexpected enc) cs.
+  Proof. exact (own_reread enc). Qed.
+
+  (** a published buffer is new (none of the buffers that existed before the call), allocated,
+      and the heap only grows *)
+  Theorem C15_published_buffer_fresh : forall (s : store) (c : @hcall V P),
+    (exists ext, fst (hstep enc s c) = s ++ ext)
+    /\ read (fst (hstep enc s c)) (snd (hstep enc s c)) = hexpected enc c
+    /\ (forall b, snd (hstep enc s c) = Some b -> length s <= b < length (fst (hstep enc s c))).
+  Proof. exact (hstep_spec enc). Qed.
+
+  (** no two published messages share a buffer *)
+  Theorem C15_published_buffers_distinct : forall (cs : list (@hcall V P)) (s : store),
+    increasing_from (length s) (snd (hrun enc s cs)).
+  Proof. exact (own_distinct enc). Qed.
+
+  (** the prescribed bytes are the payload of the event-level model's published message *)
+  Theorem C15_prescribed_payload_is_published_payload : forall (m0 : wmsg P) es,
+    w_payload (apply_edits m0 es) = last_payload es (w_payload m0).
+  Proof. exact (last_payload_apply_edits). Qed.
+
+  Theorem C15_ownership_model_accepted : forall (eqbP : P -> P -> bool), (forall p, eqbP p p = true) ->
+    forall (cs : list (@hcall V P)) (s : store),
+    let '(sf, bs) := hrun enc s cs in own_monitor enc eqbP cs (map (read sf) bs) = true.
+  Proof. exact (own_monitor_accepts enc). Qed.
+End C15_Own.
+
 Print Assumptions C15_bus_publishes_at_most_once.
 Print Assumptions C15_bus_publishes_once.
 Print Assumptions C15_bus_message_carries_name_and_payload.
@@ -419,6 +456,12 @@ Print Assumptions C15_marshaler_calls.
 Print Assumptions C15_marshaler_calls_agree_with_dispatch.
 Print Assumptions C15_bus_marshals_once.
 Print Assumptions C15_bus_marshaler_calls_accepted.
+
+Print Assumptions C15_published_payload_owned.
+Print Assumptions C15_published_buffer_fresh.
+Print Assumptions C15_published_buffers_distinct.
+Print Assumptions C15_prescribed_payload_is_published_payload.
+Print Assumptions C15_ownership_model_accepted.
 
 (** ** non-vacuity: concrete instances (values = (type, content), identity codec on the content,
     the name of a value is its type number) *)
